@@ -11,6 +11,24 @@ from pyvc.values import SBool, SObj
 LIB = ("InvalidLength", "InvalidStructure", "InvalidCountryCode")
 
 
+def spec_clean(text):
+    """the sidecar's own Clean: drop every character matched by \\s, upper-case the rest"""
+    import re
+    return "".join(ch.upper() for ch in text if not re.match(r"\s", ch))
+
+
+def raw_variant(rnd, p):
+    """a raw spelling of the compact text p: blanks, tabs, newlines, no-break and ideographic spaces inserted, ASCII
+    letters lower-cased at random"""
+    ws = [" ", "\t", "\n", "\xa0", "\u2003", "\u3000", "\r\n", "\x1c", "\u202f"]
+    out = rnd.choice(ws) if rnd.random() < 0.3 else ""
+    for ch in p:
+        out += ch.lower() if rnd.random() < 0.5 else ch
+        if rnd.random() < 0.3:
+            out += rnd.choice(ws)
+    return out
+
+
 class BicTask(T.Task):
     """BIC(p, enforce_swift_compliance=flag) for every cleaned text p (any length) and both modes"""
     crosscheck_samples = 400
@@ -74,7 +92,9 @@ class BicTask(T.Task):
         return o
 
     def native_agree(self, inp):
-        p = inp["p"]
+        # the real code gets the text as given (possibly with whitespace / lower case: the raw variants of the
+        # sampler); the spec is evaluated on the sidecar's own Clean(text)
+        p = spec_clean(inp["p"])
         strict = inp["strict"] if self.mode != "is_valid" else False
         c = self.native_code(inp)
         acc = bool(B.accept_bic(p, strict))
@@ -101,4 +121,6 @@ class BicTask(T.Task):
             i = rnd.randrange(len(p))
             p = p[:i] + rnd.choice("-_!É߀１٣.:/@") + p[i + 1:]
         p = common.clean(p)
+        if rnd.random() < 0.25:
+            p = raw_variant(rnd, p)
         return {"p": p, "strict": rnd.random() < 0.5}
